@@ -98,6 +98,7 @@ def _worker(task):
     def fn(e):
         api.ModuleState.restore()
         interp.set_stubs([])
+        interp.reset_shadows()
         ctx = api.SymCtx(e, interp)
         return h.fn(ctx, **params)
 
